@@ -23,8 +23,16 @@ impl Query {
     async fn obj(&self) -> Item { Item }
 }
 
+thread_local! { static VARS: std::cell::RefCell<(Variables, Vec<(String, Option<async_graphql_value::ConstValue>)>)> = std::cell::RefCell::new((Variables::default(), Vec::new())); }
+/// the value the resolver would receive for `count`: literal, or the variable's provided value, else its default
 fn arg_count(f: &ast::Field) -> usize {
-    f.arguments.iter().find(|(n, _)| n.node == "count").and_then(|(_, v)| if let async_graphql_value::Value::Number(n) = &v.node { n.as_u64() } else { None }).unwrap_or(0) as usize
+    f.arguments.iter().find(|(n, _)| n.node == "count").and_then(|(_, v)| match &v.node {
+        async_graphql_value::Value::Number(n) => n.as_u64(),
+        async_graphql_value::Value::Variable(name) => VARS.with(|c| { let c = c.borrow();
+            let provided = c.0.get(name).cloned();
+            let def = c.1.iter().find(|d| d.0 == name.as_str()).and_then(|d| d.1.clone());
+            match provided.or(def) { Some(async_graphql_value::ConstValue::Number(n)) => n.as_u64(), _ => None } }),
+        _ => None }).unwrap_or(0) as usize
 }
 /// (complexity, depth) of a selection set on parent type `ty` with fragments inlined
 fn measure(doc: &ast::ExecutableDocument, ss: &ast::SelectionSet, ty: &str) -> (usize, usize) {
@@ -51,15 +59,21 @@ pub fn limits(args: &Value) -> Outcome {
     let q = args["query"].as_str().unwrap();
     let limit = args["limit"].as_u64().unwrap() as usize;
     let doc = parse_query(q).expect("generated query parses");
+    let vars = args.get("variables").filter(|v| !v.is_null()).map(|v| Variables::from_json(v.clone())).unwrap_or_default();
+    set_vars(&doc, &vars);
     let (c, d) = doc.operations.iter().map(|(_, op)| measure(&doc, &op.node.selection_set.node, "Query")).next().unwrap();
     let b = Schema::build(Query, EmptyMutation, EmptySubscription);
     let (schema, measure_v) = if args["kind"] == "complexity" { (b.limit_complexity(limit).finish(), c) } else { (b.limit_depth(limit).finish(), d) };
-    let resp = schema.execute(q).now_or_never().unwrap();
+    let resp = schema.execute(Request::new(q).variables(vars)).now_or_never().unwrap();
     let rejected = !resp.errors.is_empty();
     let exp = measure_v > limit;
     Outcome { holds: rejected == exp, observed: format!("rejected={} ({} {} vs limit {}; errors {:?})", rejected, args["kind"], measure_v, limit, resp.errors.iter().map(|e| e.message.clone()).collect::<Vec<_>>()), expected: format!("rejected={}", exp) }
 }
 
+fn set_vars(doc: &ast::ExecutableDocument, vars: &Variables) {
+    let defs = doc.operations.iter().next().map(|(_, op)| op.node.variable_definitions.iter().map(|d| (d.node.name.node.to_string(), d.node.default_value.as_ref().map(|x| x.node.clone()))).collect()).unwrap_or_default();
+    VARS.with(|c| *c.borrow_mut() = (vars.clone(), defs));
+}
 pub fn inputs(seed: u64) -> impl Iterator<Item = Value> {
     let qs = [
         "{ value }", "{ v: value heavy }", "{ h: heavy }", "{ items(count: 3) { a } }", "{ p: items(count: 3) { a b } }", "{ value: items(count: 2) { a } }",
@@ -68,6 +82,14 @@ pub fn inputs(seed: u64) -> impl Iterator<Item = Value> {
     ];
     let mut out = Vec::new();
     let mut r = Rng(seed);
+    // complexity rules that read an argument bound to a variable: the PROVIDED value counts, else the variable's default
+    for (q, v) in [("query($n: Int = 1) { items(count: $n) { a b } }", json!({"n": 10})), ("query($n: Int = 10) { items(count: $n) { a b } }", json!({"n": 1})),
+                   ("query($n: Int = 5) { items(count: $n) { a b } }", json!(null)), ("query($n: Int!) { items(count: $n) { a } value }", json!({"n": 4}))] {
+        let doc = parse_query(q).unwrap(); let vars = if v.is_null() { Variables::default() } else { Variables::from_json(v.clone()) }; set_vars(&doc, &vars);
+        let (c, _) = doc.operations.iter().map(|(_, op)| measure(&doc, &op.node.selection_set.node, "Query")).next().unwrap();
+        for l in [c.saturating_sub(1), c, c + 1, 2, 19] { out.push(json!({"query": q, "variables": v, "kind": "complexity", "limit": l})); }
+    }
+    VARS.with(|c| *c.borrow_mut() = (Variables::default(), Vec::new()));
     for q in qs {
         let doc = parse_query(q).unwrap();
         let (c, d) = doc.operations.iter().map(|(_, op)| measure(&doc, &op.node.selection_set.node, "Query")).next().unwrap();
